@@ -33,6 +33,10 @@ class NLRI(object):
 
     @staticmethod
     def construct_prefix_v4(masklen, prefix_str):
+        if not 0 <= masklen <= 32:
+            # the callers add masklen to the bit length they announce; outside 0..32 the
+            # octets written here (at most 4) would not be the ones that length promises
+            raise ValueError('invalid IPv4 prefix length %s' % masklen)
         ip_hex = struct.pack('!I', netaddr.IPNetwork(prefix_str).value)
         if masklen == 0:
             ip_hex = b''
